@@ -90,6 +90,7 @@ fn boot(seed: u64, clock: ClockMode) -> Result<(Sim, SimStore, CognitiveNexus), 
     let sim = Sim::new(&cfg);
     sim.install_clock_here();
     let store = SimStore::new(sim.clone(), base_image());
+    store.set_response_delay(simcore::store::seeded_response_delay(seed));
     let nexus = block(open_nexus(&store)).map_err(|e| violation!("c19.boot", "nexus failed to open: {e}"))?;
     Ok((sim, store, nexus))
 }
